@@ -263,6 +263,8 @@ class Evaluator:
                 n = d.split('.', 1)[1]
                 if n == 'NONE':
                     return Flg('fNONE')
+                if n == 'ALL':
+                    return Flg('fALL')
                 if n in FLAG_FIELDS:
                     return FlagConst(FLAG_FIELDS[n])
                 raise Unsupported(d)
@@ -543,6 +545,10 @@ class Evaluator:
             if a.s == b.s:
                 return a
             return IntSym(f'(if {c.as_if()} then {a.s} else {b.s})')
+        if isinstance(a, FlagConst):
+            a = Flg(f'{{ fNONE with {a.field} := true }}')
+        if isinstance(b, FlagConst):
+            b = Flg(f'{{ fNONE with {b.field} := true }}')
         if isinstance(a, Flg) and isinstance(b, Flg):
             if a.s == b.s:
                 return a
@@ -1016,6 +1022,7 @@ SOURCES = {
     'trajdata': 'py_ballisticcalc/trajectory_data/_trajectory_data.py',
     'dragmodel': 'py_ballisticcalc/drag_model.py',
     'helpers': 'py_ballisticcalc/helpers.py',
+    'interface': 'py_ballisticcalc/interface.py',
 }
 
 N = Num
@@ -1884,6 +1891,55 @@ def emit_loop_init(ev):
     return out
 
 
+def emit_fire(ev):
+    """`Calculator.fire` (the default recording step, a given step passing through) and `TrajectoryCalc.trajectory` (which rows are
+    recorded: RANGE rows, or ALL with extra data; range and step handed to `_integrate` in feet)"""
+    f = ev.method('Calculator', 'fire')
+    if f is None:
+        raise Unsupported('Calculator.fire not found')
+    body = [n for n in f.body if not (isinstance(n, ast.Expr) and isinstance(n.value, ast.Constant))]
+    want0 = ast.dump(ast.parse('trajectory_range = PreferredUnits.distance(trajectory_range)').body[0])
+    iff = [n for n in body if isinstance(n, ast.If)]
+    if ast.dump(body[0]) != want0 or len(iff) != 1 or ast.dump(iff[0].test) != ast.dump(ast.parse('not trajectory_step').body[0].value):
+        raise Unsupported('Calculator.fire: the default-step logic changed shape')
+    e1 = {'trajectory_range': Qty('Distance', 'rangeRaw')}
+    if ev.block(iff[0].body, e1) is not None or not isinstance(e1.get('step'), Qty):
+        raise Unsupported('Calculator.fire: default step')
+    e2 = {'trajectory_step': Qty('Distance', 'stepRaw')}
+    if ev.block(iff[0].orelse, e2) is not None or not isinstance(e2.get('step'), Qty):
+        raise Unsupported('Calculator.fire: given step')
+    tail = body[body.index(iff[0]) + 1:]
+    want = [ast.dump(ast.parse(x).body[0]) for x in ('data = self._calc.trajectory(shot, trajectory_range, step, extra_data, time_step)',
+                                                      'return HitResult(shot, data, extra_data)')]
+    if [ast.dump(n) for n in tail] != want:
+        raise Unsupported('Calculator.fire: the call into the solver changed')
+    out = ['/-- `Calculator.fire`: the recording step when none is given (raw inches), as a function of the raw range -/\n'
+           f'def fire_default_step (rangeRaw : α) : α :=\n  {e1["step"].raw}\n',
+           '/-- `Calculator.fire`: a step given as a quantity is used as it is -/\n'
+           f'def fire_given_step (stepRaw : α) : α :=\n  {e2["step"].raw}\n']
+    g = ev.method('TrajectoryCalc', 'trajectory')
+    if g is None:
+        raise Unsupported('TrajectoryCalc.trajectory not found')
+    gb = [n for n in g.body if not (isinstance(n, ast.Expr) and isinstance(n.value, ast.Constant))]
+    call = [n for n in gb if isinstance(n, ast.Return)]
+    init = [n for n in gb if isinstance(n, ast.Expr) and isinstance(n.value, ast.Call) and ev.dotted(n.value.func) == 'self._init_trajectory']
+    wantr = ast.dump(ast.parse('self._integrate(shot_info, max_range >> Distance.Foot, dist_step >> Distance.Foot, filter_flags, time_step)').body[0].value)
+    if len(call) != 1 or len(init) != 1 or ast.dump(call[0].value) != wantr or gb.index(init[0]) > gb.index(call[0]):
+        raise Unsupported('TrajectoryCalc.trajectory: the call of _init_trajectory / _integrate changed')
+    env = {'extra_data': Cond('bool', 'extra'), 'self.__class__': 'TrajectoryCalc'}
+    if ev.block([n for n in gb if n is not call[0] and n is not init[0]], env) is not None:
+        raise Unsupported('TrajectoryCalc.trajectory: flags')
+    fl = env.get('filter_flags')
+    if isinstance(fl, FlagConst):
+        fl = Flg(f'{{ fNONE with {fl.field} := true }}')
+    if not isinstance(fl, Flg):
+        raise Unsupported('TrajectoryCalc.trajectory: flags')
+    out.append(f'/-- `TrajectoryCalc.trajectory`: which rows are recorded -/\ndef trajectory_flags (extra : Bool) : Model.Flags :=\n  {fl.s}\n')
+    rng = ev.ev(ast.parse('max_range >> Distance.Foot').body[0].value, {'max_range': Qty('Distance', 'rangeRaw')})
+    out.append(f'/-- `TrajectoryCalc.trajectory`: range / step handed to `_integrate` (feet) -/\ndef trajectory_feet (raw : α) : α :=\n  {num(rng).replace("rangeRaw", "raw")}\n')
+    return '\n'.join(out)
+
+
 def find_self_assign(ev, cls, meth, attr):
     m = ev.method(cls, meth)
     for n in ast.walk(m) if m else []:
@@ -1970,6 +2026,7 @@ def generate(repo: Path) -> str:
     group(['loop_body'], lambda: emit_loop_body(ev))
     group(['init_trajectory'], lambda: emit_init_trajectory(ev))
     group(['loop_init', 'final_row'], lambda: emit_loop_init(ev))
+    group(['fire_default_step', 'fire_given_step', 'trajectory_flags', 'trajectory_feet'], lambda: emit_fire(ev))
     group(['apex_init', 'apex_cond', 'apex_rising', 'apex_move_right', 'apex_move_left', 'lookup_distance_cond', 'lookup_time_cond',
            'lookup_time_key', 'lookup_within_deviation', 'lookup_before_is_nearer'], lambda: emit_lookup(ev))
     group(['danger_half', 'danger_begin_danger_hit', 'danger_end_danger_hit'], lambda: emit_danger(ev))
